@@ -126,6 +126,22 @@ func (h *canonRun) checkStored(c *cdef, m abi.Method, key, kind string, offered,
 	return ok
 }
 
+// repackOracle: PackMethod(Unpack(d)) of the implementation == reference encoding of Unpack(d), for a decodable d.
+// The decoded values are used as they come out of the decoder (a `bytes` value is a sub-slice of d).
+func (h *canonRun) repackOracle(c *cdef, m abi.Method, nc ncData) {
+	want := canonicalOf(c.ABI, m, nc.data)
+	if want == nil {
+		return
+	}
+	got, ok := implRepack(c.ABI, m, nc.data)
+	good := ok && bytes.Equal(got, want)
+	d := M{}
+	if !good {
+		d = M{"contract": c.Name, "method": m.Name, "encoding": nc.tag, "data": Byt(nc.data), "repacked": Byt(got), "canonical": Byt(want)}
+	}
+	h.out.Oracle(good, "repack-of-decoded-values-is-canonical", d)
+}
+
 // confirm: pool -> momentum -> ledger, then the clause on what the ledger holds
 func (h *canonRun) confirm(c *cdef, m abi.Method, kind string, offered []byte, tx *nom.AccountBlockTransaction, t tuple) {
 	nd := h.nd
@@ -189,6 +205,10 @@ func (h *canonRun) method(c *cdef, m abi.Method, perMethod, perTuple int) {
 			ts = append(ts, e)
 		}
 	}
+	// every `bytes` argument with the lengths around the word size (0, 1, 31, 32, 33, 40): always there
+	bl := bytesLenTuples(rng, m, base)
+	ts = append(ts, bl...)
+	perMethod += len(bl)
 	if len(m.Inputs) == 0 && perMethod > 2 {
 		perMethod = 2 // one encoding exists; only the payment varies
 	}
@@ -206,6 +226,10 @@ func (h *canonRun) method(c *cdef, m abi.Method, perMethod, perTuple int) {
 			out.Count("abicanon:pack-failed:" + key)
 			continue
 		}
+		// the packer is a function of the values: it agrees with the reference encoder on fresh values
+		ref := refPack(m, t.args)
+		out.Oracle(ref != nil && bytes.Equal(ref, canon), "packer-equals-reference-encoder", M{"contract": c.Name, "method": m.Name,
+			"args": t.tag, "packed": Byt(canon), "reference": Byt(ref)})
 		h.tieCase(c, m, canon, "canonical")
 		if d := damaged(rng, canon); len(d) > 0 {
 			h.tieCase(c, m, d, "damaged")
@@ -237,19 +261,28 @@ func (h *canonRun) method(c *cdef, m abi.Method, perMethod, perTuple int) {
 			for _, f := range strings.Split(nc.tag, "+") {
 				out.Count("abicanon:encoding:" + f)
 			}
+			vtag := vtag
+			if nc.other {
+				vtag = "other-values" // decodes to other values than the tuple: their validity is not known
+			}
 			out.Count("abicanon:offered:" + vtag)
 			h.tieCase(c, m, nc.data, "noncanonical")
+			// what ValidateSendBlock relies on, on the ABI alone: decoding and packing again gives the canonical bytes,
+			// whatever memory the decoded values share with the call data
+			abiLevel := func() { h.repackOracle(c, m, nc) }
 			tx, err := h.deliver(c, t, nc.data)
 			if err != nil {
 				out.Count("noncanon:" + key + ":refused")
 				out.Count("abicanon:refused:" + vtag + ":" + refusal(err))
 				out.Oracle(true, "accepted-call-data-is-canonical", nil)
+				abiLevel()
 				continue
 			}
 			out.Count("noncanon:" + key + ":accepted")
 			h.checkStored(c, m, "accepted-call-data-is-canonical", nc.tag, nc.data, tx.Block.Data, t)
 			// whatever was accepted goes all the way into the ledger
 			h.confirm(c, m, nc.tag, nc.data, tx, t)
+			abiLevel()
 		}
 	}
 	if !validSeen {
